@@ -67,15 +67,7 @@ theorem path_is_reference_record {κ} (cols : List Level) (recs : List (List Nod
     ∃ rs, runLevelLoop (fromRecordsRaw cols recs) vote cells = .ok rs ∧ rs.length = cells.length ∧
       ∀ r ∈ rs, r.map (·.2.assignment) ∈ recs := by
   have w := fromRecordsRaw_wf hc hne hr hn
-  have hnode : HasNode (fromRecordsRaw cols recs) := by
-    -- the first label of the first record is a node of the top level
-    obtain ⟨r0, rs0, rfl⟩ := List.exists_cons_of_ne_nil hrec
-    have hpos : 0 < cols.length := List.length_pos_iff.2 hne
-    have hlen : r0.length = cols.length := hr r0 (by simp)
-    have h0 : cols[0]? = some cols[0] := List.getElem?_eq_getElem hpos
-    have : r0[0]'(by omega) ∈ (fromRecordsRaw cols (r0 :: rs0)).nodesAt cols[0] :=
-      (build_nodes hc hr h0 _).2 ⟨r0, by simp, List.getElem?_eq_getElem (by omega)⟩
-    exact hasNode_of_mem w (List.getElem_mem hpos) this
+  have hnode := hasNode_fromRecords hc hne hr hn hrec
   obtain ⟨rs, h1, h2, h3⟩ := path_of_validate _ vote cells w.valid w.hNodup w.dict hnode hv
   exact ⟨rs, h1, h2, fun r hr' => (fromRecordsRaw_paths hc hne hr hn _).1 (h3 r hr').2⟩
 
